@@ -50,6 +50,9 @@
 (*   "FlushForgets"    a flush asked for while another one runs is dropped     *)
 (*   "DrainNoRecheck"  a Close waiting for "drain" goes on at the next drain   *)
 (*                     even if packets were buffered meanwhile                 *)
+(*   "CloseMissesDrain" Close tests for pending packets and registers its      *)
+(*                     "drain" listener in two steps without looking again: a  *)
+(*                     drain emitted in between (or being emitted) is missed   *)
 (* With Deviations = {} the model is the code as it stands.                    *)
 EXTENDS Integers, Sequences, FiniteSets, TLC, Json, EioProps
 
@@ -105,6 +108,8 @@ Init ==
           enter |-> {},             \* reasons of OnClose calls that swapped the state and have not emitted close yet
           mid |-> {},               \* reasons whose close event is being emitted (registry listener done, candidate listener not yet)
           drainClose |-> FALSE,     \* Close(false) waits for the drain event
+          cw |-> FALSE,             \* Close(false) has seen packets pending and has not yet registered its "drain" listener
+          dl |-> FALSE,             \* that listener was registered when the "drain" event now being emitted started (Emit calls a snapshot)
           pingOut |-> FALSE,        \* a ping is outstanding
           armed |-> FALSE]          \* .. and its timeout timer is armed
   /\ ob = [sent |-> <<>>,           \* messages accepted by Send, in order
@@ -197,13 +202,13 @@ FlushDone(x) ==
     LET k == x.flk
         a == [x EXCEPT !.fd = FALSE, !.flk = "none"]
         \* the Close that waits for "drain" goes on only once nothing accepted is waiting any more (else it waits for the next drain)
-        b == IF a.drainClose /\ (a.wbuf = <<>> \/ Dev("DrainNoRecheck")) THEN CloseTransport([a EXCEPT !.drainClose = FALSE], FALSE) ELSE a
+        b == IF a.drainClose /\ a.dl /\ (a.wbuf = <<>> \/ Dev("DrainNoRecheck")) THEN CloseTransport([a EXCEPT !.drainClose = FALSE], FALSE) ELSE a
         \* unlock; a flush asked for meanwhile is done now by the same goroutine, before it goes on with its own business
         c == IF b.fw THEN FlushTake([b EXCEPT !.fw = FALSE], k) ELSE b
     IN IF Took(b, c) THEN c ELSE After(c, k)
 FlushHand(x) ==
     LET t == IF Dev("StaleTransport") THEN x.flt ELSE x.cur
-        a == TrSend([x EXCEPT !.fl = <<>>, !.fd = TRUE,
+        a == TrSend([x EXCEPT !.fl = <<>>, !.fd = TRUE, !.dl = x.drainClose,
                               !.wbuf = IF Dev("LateClear") THEN <<>> ELSE x.wbuf], t, x.fl)
     IN IF "dwindow" \in Features THEN a ELSE FlushDone(a)
 
@@ -239,16 +244,30 @@ FlushEnd ==
     /\ UNCHANGED ob
     /\ H([a |-> "flush.done"])
 
+\* socket.Close(false), packets pending: s.On("drain", onDrain), then (since fix ...) onDrain() itself once - the drain it
+\* waits for may have been emitted, or be under way, since Close looked at the counter
+Pending(x) == x.wbuf # <<>> \/ (x.fl # <<>> /\ ~Dev("CloseSkipsTaken"))
+CloseWait(x) ==
+    LET a == [x EXCEPT !.cw = FALSE, !.drainClose = TRUE] IN
+    IF ~Pending(a) /\ ~Dev("CloseMissesDrain") THEN CloseTransport([a EXCEPT !.drainClose = FALSE], FALSE) ELSE a
+
 \* socket.Close(discard)
 AppClose(discard) ==
     /\ "close" \in Features
     /\ IF discard /\ s.rs \in {"open", "closing"} THEN s' = CloseTransport(s, TRUE)
        ELSE /\ s.rs = "open"
             /\ LET a == [s EXCEPT !.rs = "closing"] IN
-               s' = IF a.wbuf # <<>> \/ (a.fl # <<>> /\ ~Dev("CloseSkipsTaken")) THEN [a EXCEPT !.drainClose = TRUE]
+               s' = IF Pending(a) THEN (IF "cwindow" \in Features THEN [a EXCEPT !.cw = TRUE] ELSE CloseWait(a))
                     ELSE CloseTransport(a, FALSE)
     /\ ob' = IF discard THEN [ob EXCEPT !.hard = TRUE] ELSE [ob EXCEPT !.accepted = SeqSet(ob.sent)]
     /\ H([a |-> "appclose", discard |-> discard])
+
+\* the Close parked between its test of the counter and the registration of its listener goes on
+AppCloseWait ==
+    /\ s.cw
+    /\ s' = CloseWait(s)
+    /\ UNCHANGED ob
+    /\ H([a |-> "appclose.wait"])
 
 \* socket.OnClose, second step: timers, callbacks, clearTransport, then the first listeners of "close"
 \* (the registry's, registered in Handshake before anybody else could, and the application's)
@@ -428,7 +447,7 @@ CloseWin == "closewin" \in Features
 
 Next == \/ \E m \in Msgs : AppSend(m)
         \/ FlushGo \/ FlushEnd
-        \/ \E d \in BOOLEAN : AppClose(d)
+        \/ (\E d \in BOOLEAN : AppClose(d)) \/ AppCloseWait
         \/ CliPoll \/ (\E i \in 1..2 : PollWrite(i)) \/ WsWrite \/ PeerClose \/ PollAbort \/ CloseTimeoutFire
         \/ \E m \in CliMsgs : CliMsg(m)
         \/ (CloseWin /\ \E r \in s.enter : CloseMid(r))
@@ -445,10 +464,10 @@ Spec == Init /\ [][NextW]_vars
 ----------------------------------------------------------------------------
 IsPrefix(a, b) == Len(a) <= Len(b) /\ SubSeq(b, 1, Len(a)) = a
 InClose == s.enter # {} \/ s.mid # {}
-Quiet == ~InClose /\ s.infl["p"] = <<>> /\ s.infl["w"] = <<>> /\ ~Locked(s)
+Quiet == ~InClose /\ s.infl["p"] = <<>> /\ s.infl["w"] = <<>> /\ ~Locked(s) /\ ~s.cw
 
 TypeOK == /\ s.rs \in {"open", "closing", "closed"} /\ s.cur \in T /\ s.poll \in {"none", "pending", "gone"}
-          /\ s.cand \in {"none", "attached", "probed", "dead"} /\ s.flk \in {"none", "poll", "upg"} /\ s.fw \in BOOLEAN /\ s.fd \in BOOLEAN
+          /\ s.cand \in {"none", "attached", "probed", "dead"} /\ s.flk \in {"none", "poll", "upg"} /\ s.fw \in BOOLEAN /\ s.fd \in BOOLEAN /\ s.cw \in BOOLEAN /\ s.dl \in BOOLEAN
           /\ \A t \in T : s.trs[t] \in {"none", "open", "closing", "closed"}
 
 \* C01: what the client has received is always a prefix of what Send accepted
@@ -477,6 +496,9 @@ C11_NoStuckPoll == ob.stuck = 0
 \* C12: whatever was accepted before a graceful Close has reached the client once the session is closed and quiet,
 \* unless something else ended the session first
 C12_BufferedFirst == (Quiet /\ s.rs = "closed" /\ ob.reasons = <<"forced close">> /\ ~ob.hard /\ ~ob.aborted) => ob.accepted \subseteq SeqSet(ob.rcvd)
+\* C12: a graceful Close never waits for a "drain" that nobody is going to emit: with nothing pending and no drain event under
+\* way the Close has gone on to close the transport (else the session lingers until the next heartbeat deadline)
+C12_NoLostWakeup == ~(s.rs = "closing" /\ s.drainClose /\ ~s.cw /\ s.wbuf = <<>> /\ s.fl = <<>> /\ ~(s.fd /\ s.dl))
 \* C08: the transport changes only through CandUpgrade, at most once, never on a closed session
 C08_AtMostOnce == (s.cur = "w") => s.upgraded
 C08_FailureKeepsSession == (s.cand = "none" /\ ~s.upgraded /\ s.rs = "open") => ~s.upgrading
